@@ -720,4 +720,69 @@ theorem libPack_clone {β ν δ : Type} (lib : Lib β ν δ) (m : Msg ν) (heap 
       · rfl
       · exact libRecs_swap lib L _ _ p fresh hp m.records _ _ hother
 
+/-! ### ownership of pooled states -/
+
+/-- no identity twice among pool and borrowers, all identities allocated. -/
+def OwnInv (s : Own) : Prop := (s.pool ++ s.borrowed).Nodup ∧ ∀ x ∈ s.pool ++ s.borrowed, x < s.next
+
+theorem ownStep_inv (puts : Exit → Nat) (hp : ∀ e, puts e ≤ 1) (s : Own) (ev : OwnEv) (h : OwnInv s) :
+    OwnInv (ownStep puts s ev) := by
+  obtain ⟨hnd, hlt⟩ := h
+  have fresh : OwnInv { s with borrowed := s.next :: s.borrowed, next := s.next + 1 } := by
+    constructor
+    · show (s.pool ++ s.next :: s.borrowed).Nodup
+      rw [List.perm_middle.nodup_iff, List.nodup_cons]
+      exact ⟨fun hm => Nat.lt_irrefl _ (hlt _ hm), hnd⟩
+    · intro x hx
+      show x < s.next + 1
+      have : x = s.next ∨ x ∈ s.pool ++ s.borrowed := by
+        simp only [List.mem_append, List.mem_cons] at hx ⊢
+        rcases hx with h | h | h
+        · exact Or.inr (Or.inl h)
+        · exact Or.inl h
+        · exact Or.inr (Or.inr h)
+      rcases this with rfl | h
+      · omega
+      · have := hlt x h; omega
+  cases ev with
+  | get pick =>
+    cases pick with
+    | none => exact fresh
+    | some id =>
+      unfold ownStep
+      by_cases hid : id ∈ s.pool
+      · simp only [hid, if_true]
+        have hperm : (s.pool.erase id ++ id :: s.borrowed).Perm (s.pool ++ s.borrowed) := by
+          refine List.perm_middle.trans ?_
+          rw [← List.cons_append]
+          exact (List.perm_cons_erase hid).symm.append_right _
+        exact ⟨hperm.nodup_iff.mpr hnd, fun x hx => hlt x (hperm.mem_iff.mp hx)⟩
+      · simp only [hid, if_false]; exact fresh
+  | finish id e =>
+    unfold ownStep
+    by_cases hid : id ∈ s.borrowed
+    · simp only [hid, if_true]
+      have hsub : (s.pool ++ s.borrowed.erase id).Sublist (s.pool ++ s.borrowed) :=
+        (List.Sublist.refl _).append List.erase_sublist
+      have hpe := hp e
+      have hcases : puts e = 0 ∨ puts e = 1 := by omega
+      rcases hcases with h0 | h1
+      · rw [h0]
+        exact ⟨hnd.sublist hsub, fun x hx => hlt x (hsub.subset hx)⟩
+      · rw [h1]
+        have hperm : (List.replicate 1 id ++ s.pool ++ s.borrowed.erase id).Perm (s.pool ++ s.borrowed) := by
+          show (id :: (s.pool ++ s.borrowed.erase id)).Perm _
+          refine List.perm_middle.symm.trans ?_
+          exact (List.perm_cons_erase hid).symm.append_left _
+        exact ⟨hperm.nodup_iff.mpr hnd, fun x hx => hlt x (hperm.mem_iff.mp hx)⟩
+    · simp only [hid, if_false]; exact ⟨hnd, hlt⟩
+
+theorem ownRun_inv (puts : Exit → Nat) (hp : ∀ e, puts e ≤ 1) (evs : List OwnEv) : OwnInv (ownRun puts evs) := by
+  unfold ownRun
+  have : ∀ (s : Own), OwnInv s → OwnInv (evs.foldl (ownStep puts) s) := by
+    induction evs with
+    | nil => intro s h; exact h
+    | cons ev t ih => intro s h; exact ih _ (ownStep_inv puts hp s ev h)
+  exact this {} ⟨by simp, by simp⟩
+
 end SdnsVerif.Lemmas.Packer
